@@ -466,6 +466,10 @@ func (p *Parser) parseDict() (core.Object, error) {
 			break
 		}
 
+		if p.pos >= len(p.data) {
+			return nil, fmt.Errorf("unclosed dictionary")
+		}
+
 		// Parse key (must be a name)
 		if p.data[p.pos] != '/' {
 			return nil, fmt.Errorf("dictionary key must be a name")
